@@ -9,8 +9,9 @@ DRIVER = '''#include "ImathMatrix.h"
 #include "ImathShear.h"
 using namespace IMATH_INTERNAL_NAMESPACE;
 typedef unsigned U;
-void use9 (Matrix44<U> &a, Matrix33<U> &b, Vec3<U> &v, Vec2<U> &p, Shear6<U> &h, U s)
+void use9 (Matrix44<U> &a, Matrix33<U> &b, Vec3<U> &v, Vec2<U> &p, Shear6<U> &h, U s, Matrix22<U> &c)
 {
+    a.setEulerAngles (v); a.rotate (v); b.setRotation (s); b.rotate (s); c.setRotation (s); c.rotate (s); c = c * c;
     a.setTranslation (v); a.translate (v); a.setScale (v); a.setScale (s); a.scale (v); a.setShear (v); a.setShear (h); a.shear (v); a.shear (h); v = a.translation (); a = a * a;
     b.setTranslation (p); b.translate (p); b.setScale (p); b.setScale (s); b.scale (p); b.setShear (s); b.setShear (p); b.shear (s); b.shear (p); p = b.translation (); b = b * b;
 }
@@ -26,7 +27,18 @@ ALIASES = {
     "setScale33v": "%s::setScale(const %s &)" % (M3, V2), "scale33": "%s::scale(const %s &)" % (M3, V2),
     "setShear33v": "%s::setShear(const %s &)" % (M3, V2), "setShear33s": "%s::setShear(const %s &)" % (M3, U_), "shear33v": "%s::shear(const %s &)" % (M3, V2), "shear33s": "%s::shear(const %s &)" % (M3, U_),
     "mul33": "%s::operator*(const %s &) const" % (M3, M3),
+    "setEuler44": "%s::setEulerAngles(const %s &)" % (M4, V3), "rotate44": "%s::rotate(const %s &)" % (M4, V3),
+    "setRotation33": "%s::setRotation(%s)" % (M3, U_), "rotate33": "%s::rotate(%s)" % (M3, U_),
+    "setRotation22": "Matrix22<%s>::setRotation(%s)" % (U_, U_), "rotate22": "Matrix22<%s>::rotate(%s)" % (U_, U_),
+    "mul22": "Matrix22<%s>::operator*(const Matrix22<%s> &) const" % (U_, U_),
 }
+# std::cos(unsigned) is libstdc++'s integer overload returning double
+TYPE_MAP = {"__gnu_cxx::__enable_if<__is_integer<unsigned int>::__value,double>::__type": "double"}
+RING_TRIG = [(r"^std::cos\(unsigned int\)$", "cxx2c_ring_cos"), (r"^std::sin\(unsigned int\)$", "cxx2c_ring_sin")]
+ROT_UNITS = [("setEuler44", "setEulerAngles(r) == Rx(r.x) x Ry(r.y) x Rz(r.z), the elementary row-vector rotations built from the same cos/sin values; last row/column (0,0,0,1)"),
+             ("rotate44", "rotate(r) == setEulerAngles(r) x M, arbitrary M (rows 0..2; row 3 unchanged)"),
+             ("setRotation33", "3x3 / 2x2 setRotation(r) == [[c,s],[-s,c]] (+ homogeneous row/column)"),
+             ("rotate33", "3x3 rotate(r) == M x setRotation(r) (right multiplication)"), ("rotate22", "2x2 rotate(r) == M x setRotation(r) (right multiplication)")]
 EXTRACTION = {}
 UNITS = [("setTranslation44", "setTranslation sends p to p+t; translation() returns the row"), ("setScale44", "setScale (vector and scalar) scales per axis"),
          ("setShear44", "setShear(Vec3) is the documented shear"), ("translate44", "translate(t) == setTranslation(t) x M, arbitrary M"),
@@ -36,7 +48,7 @@ UNITS = [("setTranslation44", "setTranslation sends p to p+t; translation() retu
 
 
 def units(tier):
-    ex = extract.run_extraction("c09x", DRIVER, sorted(set(ALIASES.values())), outdir=GEN)
+    ex = extract.run_extraction("c09x", DRIVER, sorted(set(ALIASES.values())), outdir=GEN, type_map=TYPE_MAP, extern_patterns=RING_TRIG)
     os.makedirs(GEN, exist_ok=True)
     txt = "\n".join("#define F_%s %s" % (a, ex.names[s]) for a, s in ALIASES.items()) + "\n"
     p = os.path.join(GEN, "c09_names.h")
@@ -47,7 +59,11 @@ def units(tier):
     return [Unit("c09." + n, H, "h_" + n, includes=[GEN], backend="z3som", mode="RING", functions=sorted(set(ALIASES.values())), clause=c, no_checks=True,
                  cbmc_flags=["--unwind", "18", "--no-signed-overflow-check", "--object-bits", "10"], timeout=600, replay=rp,
                  assumptions=["RING: polynomial identities over Z/2^32 on the unsigned instantiation; transfer to float by same template + classical rounding bound (not machine-checked)"])
-            for n, c in UNITS]
+            for n, c in UNITS] + \
+           [Unit("c09." + n, H, "h_" + n, includes=[GEN], backend="z3som", mode="RING", defines=["CXX2C_RING_TRIG"], functions=sorted(set(ALIASES.values())), clause=c, no_checks=True,
+                 cbmc_flags=["--unwind", "18", "--no-signed-overflow-check", "--object-bits", "10"], timeout=600, replay=rp,
+                 assumptions=["RING (see above); cos and sin are uninterpreted functions (same argument => same value): the clauses are polynomial identities in the cos/sin VALUES and need no trigonometric identity"])
+            for n, c in ROT_UNITS]
 
 
 def extra_coverage(units, tier):
@@ -55,8 +71,8 @@ def extra_coverage(units, tier):
 
 
 NOT_COVERED = [
-    "setRotation / setEulerAngles / setAxisAngle / rotate (sin, cos; orthonormality needs c^2+s^2=1): planned with uninterpreted sin/cos, not built",
+    "orthonormality / determinant +1 of the rotation builders (needs c^2+s^2=1: ideal membership, not a polynomial identity); setAxisAngle (normalisation: sqrt and division)",
     "rotationMatrix*, alignZAxisWithTargetDir, computeLocalFrame, firstFrame/nextFrame/lastFrame (normalisation, acos, degeneracy thresholds): out of reach",
-    "Matrix22 rotate / scale",
+    "Matrix22 scale",
 ]
 ASSUMPTIONS = ["RING mode (see C05)", "cxx2c extraction rules; differential validation"]
